@@ -282,6 +282,13 @@ Example C41_stdin_nonvacuous :
   /\ read_all [CData [37%N]; CData [80%N]] = Some [37%N; 80%N].
 Proof. vm_compute. repeat split; reflexivity. Qed.
 
+(* T: within one function of pkg/cli a generic slot of Command (BoolVal1/2/3, IntVal, StringVal)
+   is bound to ONE parameter name of the api functions it is passed to — the stdin branch and
+   the file branch cannot hand the --json flag to the parameter the --all flag belongs to *)
+Theorem C41_flag_slots_consistent : forall r, In r flag_table -> fl_nnames r = 1%nat.
+Proof. exact flag_rows_l. Qed.
+Print Assumptions C41_flag_slots_consistent.
+
 (* non-vacuity: both sinks and an error occur; the tables are non-empty and contain the helpers *)
 Example C41_nonvacuous :
   (exists tr, streamInOut ADash AEmpty (mkEnv SOk true CNew true) true = POk SrcStdin SnkStdout tr false)
